@@ -98,7 +98,32 @@ class BatchError(ExceptionGroup):
     return BatchError(excs, self.stage, self.exit_code)
 
 
-USER = [(DeviceError, ('sda', 5, 'I/O error')), (BatchError, ([ValueError('a'), KeyError('b')], 'load', 3)),
+class QuotaError(Exception):
+  """Required arguments in __new__; `args` holds only the rendered message (one item): the proxy cannot be built
+  from `args` and is made without running the class's __new__."""
+
+  def __new__(cls, resource, limit):
+    self = super().__new__(cls)
+    self.resource, self.limit = resource, limit
+    return self
+
+  def __init__(self, resource, limit):
+    super().__init__('quota exceeded for %s (limit %d)' % (resource, limit))
+
+
+class KwOnlyNew(LookupError):
+  """__new__ takes a keyword-only argument; `args` is empty."""
+
+  def __new__(cls, *, key):
+    self = super().__new__(cls)
+    self.key = key
+    return self
+
+  def __init__(self, *, key):
+    super().__init__()
+
+
+USER = [(QuotaError, ('disk', 3)), (KwOnlyNew, {'key': 'k1'}), (DeviceError, ('sda', 5, 'I/O error')), (BatchError, ([ValueError('a'), KeyError('b')], 'load', 3)),
         (NeedsArgs, (1, 'two')), (NeedsNewArgs, (404, 'nf')), (Slotted, ([1, 2],)), (CustomStr, ('m', {'k': 1})),
         (WithProperty, (21,))]
 
@@ -166,7 +191,7 @@ def _make(case):
     cls, args = next((c, a) for c, a in USER if c.__name__ == case['cls'])
   else:
     cls, args = next((c, a) for c, a in builtin_table() if c.__name__ == case['cls'])
-  exc = cls(*args)
+  exc = cls(**args) if isinstance(args, dict) else cls(*args)
   cls = type(exc)   # OSError(errno, ...) constructs the errno-specific subclass
   if isinstance(exc, ImportError):
     exc.name, exc.path = 'modname', '/p/x.py'
